@@ -30,7 +30,7 @@ import (
 	"github.com/99designs/gqlgen/graphql/handler/transport"
 )
 
-const schemaSDL = `type Query { a: String! b: String! c: String! d: String! e: String! f: String! }`
+const schemaSDL = `type Query { a(x: String): String! b(x: String): String! c(x: String): String! d(x: String): String! e(x: String): String! f(x: String): String! }`
 
 // cacheOp is one operation on the APQ cache as seen by the decorator.
 type cacheOp struct {
@@ -209,6 +209,7 @@ type rigOpts struct {
 	Kind   string
 	Cap    int
 	QCache bool // also install the parsed-document cache of executor.go
+	QSize  int  `json:"qcache_size,omitempty"` // its capacity (0: 4)
 	TCP    bool // serve over a real loopback listener instead of a recorder
 }
 
@@ -260,7 +261,11 @@ func newRig(o rigOpts) (*rig, error) {
 	srv.AddTransport(transport.POST{})
 	srv.AddTransport(transport.GET{})
 	if o.QCache {
-		srv.SetQueryCache(lru.New[*ast.QueryDocument](4))
+		n := o.QSize
+		if n <= 0 {
+			n = 4
+		}
+		srv.SetQueryCache(lru.New[*ast.QueryDocument](n))
 	}
 	srv.Use(spy{after: false})
 	srv.Use(extension.AutomaticPersistedQuery{Cache: lc})
